@@ -24,7 +24,7 @@ PROPS["C02"] = dict(
         stage("automaton"),
         stage("long"),
         stage("bounded"),
-        stage("random", kind="rc", quick=6000, thorough=1500000, max_size=100),
+        stage("random", kind="rc", quick=6000, thorough=300000, max_size=100),
     ],
     rule="Local parts are (a) every string prefix+byte+suffix of the automaton-conformance suite, (b) every string of length <= 6 (quick) / <= 8 "
          "(thorough) over 13 class-representative bytes, (c) grammar-generated valid and mutated local parts up to 300 octets, (d) the repository's "
@@ -52,7 +52,7 @@ PROPS["C03"] = dict(
         stage("long"),
         stage("utf8"),
         stage("bounded"),
-        stage("random", kind="rc", quick=6000, thorough=1500000, max_size=100),
+        stage("random", kind="rc", quick=6000, thorough=300000, max_size=100),
     ],
     rule="Mode-6531 local parts: (a) every 1- and 2-byte sequence, 3-byte sequences over boundary continuation values (quick) or all 255x255 "
          "(thorough), a structured 4-byte cover, each as atom / quoted / escaped / last bytes; (b) all strings of <= 6 (quick) / <= 8 (thorough) "
@@ -100,7 +100,7 @@ PROPS["C05"] = dict(
         stage("corpus", workers=1),
         stage("shapes"),
         stage("bounded"),
-        stage("random", kind="rc", quick=5000, thorough=1500000, max_size=100),
+        stage("random", kind="rc", quick=5000, thorough=300000, max_size=100),
     ],
     rule="Bracketed domains: every IPv6 shape (0-8 groups before x 0-8 after '::' x 0-2 '::' x optional dotted-quad tail x group widths "
          "{1,4,5,0} x tags {IPv6:, none, ipv6:, foo:, ...}); every octet value 0-300 in each of the 4 positions, bare and as IPv6 tail; digit-count and "
@@ -222,7 +222,7 @@ PROPS["C01"] = dict(
         stage("corpus"),
         stage("lengths"),
         stage("bounded"),
-        stage("random", kind="rc", quick=10000, thorough=1500000, max_size=100),
+        stage("random", kind="rc", quick=10000, thorough=300000, max_size=100),
     ],
     rule="Addresses: all strings of length 0-7 (quick) / 0-8 (thorough) over {a @ . [ ] 1 : \"}; local parts of 58-72 octets in 7 word shapes "
          "(atom, dotted, quoted, quoted pair, 2- and 4-byte UTF-8 whose byte count crosses 64 while the character count does not) x 5 domains; "
@@ -246,11 +246,14 @@ PROPS["C12"] = dict(
     binaries={"c12": dict(src=["props/c12.cpp"], variants=["dflt"])},
     stages=[
         stage("corpus"),
+        stage("lengths"),
+        stage("switched"),
         stage("bytes"),
         stage("bounded"),
-        stage("random", kind="rc", quick=10000, thorough=1500000, max_size=100),
+        stage("random", kind="rc", quick=10000, thorough=300000, max_size=100),
     ],
-    rule="All strings of length <= 5 (quick) / <= 7 (thorough) over the 12-class pure-ASCII alphabet {a 1 . - @ [ ] : SP ( 0x01 _}; every ASCII byte "
+    rule="Local parts of 56-72 octets in 7 word shapes x 5 domains; 11 mode-discriminating addresses on one object switched through every ordered pair of "
+         "modes with and without a failed eav_setup in between; all strings of length <= 5 (quick) / <= 7 (thorough) over the 12-class pure-ASCII alphabet {a 1 . - @ [ ] : SP ( 0x01 _}; every ASCII byte "
          "except DQUOTE/backslash at 3 positions of the local part x 18 domain shapes; grammar-based random addresses of the C01 generator (half of "
          "them steered into the 'pure ASCII, no quote/backslash' population) with default and random allow_tld; the repository corpus; all in 4 modes "
          "x tld_check {0,1}. Non-trivial = the address has a non-empty domain part; distinct by address hash.",
@@ -270,7 +273,7 @@ PROPS["C15"] = dict(
         stage("setup", workers=1),
         stage("codes", workers=1),
         stage("targets"),
-        stage("random", kind="rc", quick=10000, thorough=1500000, max_size=100),
+        stage("random", kind="rc", quick=10000, thorough=300000, max_size=100),
     ],
     rule="Inputs: the repository corpus and ~45 hand-picked addresses (one or more per error code), each with every one-byte insertion / replacement "
          "from {. \" @ SP - 0x80 \\ [ 0x01} and every one-byte deletion; grammar-based random addresses of the C01 generator with default and "
@@ -320,7 +323,7 @@ PROPS["C10"] = dict(
         stage("corpus"),
         stage("tlds"),
         stage("scripts"),
-        stage("random", kind="rc", quick=8000, thorough=1500000, max_size=100),
+        stage("random", kind="rc", quick=8000, thorough=300000, max_size=100),
     ],
     rule="Domains: every IDN TLD row of the table in U- and A-form x 10 placements; single code points of 11 script ranges (Cyrillic lower/upper, "
          "Greek, Han, Hangul, Arabic, Hebrew, Devanagari, Latin-1, full-width Latin, Hiragana) x 5 placements; labels of 1-64 characters per script "
@@ -516,7 +519,7 @@ PROPS["C20"] = dict(
     assumptions=["line model = the tool's documented trimming (terminator, one leading space, one trailing blank); '#' in column 1 is a comment",
                  "verdict and message come from the in-process library with eav_init defaults, exactly what bin/main.c configures",
                  "lines containing NUL are judged for robustness and verdict count only (tool and API are C-string based)"],
-    min_evaluations=dict(quick=100000, thorough=15000000),
+    min_evaluations=dict(quick=100000, thorough=3000000),
     technique="differential CLI vs in-process library over rapidcheck-generated files with a line model, sanitizer build of the tool as crash oracle",
     level_text="Exploration: generated files through the real tool (sanitizer build) with an explicit line model and the library as verdict oracle.",
     level_note="Trusted: the line model in props/c20.cpp, ASan/UBSan, posix_spawn plumbing.",
